@@ -33,7 +33,7 @@ TRUSTED = [
 ]
 ASSUMPTIONS = ['host comparison: a bracketed IPv6 literal in the Host field is delivered without its brackets (uri.host = "::1"); the oracle compares hosts up to the brackets and letter case', 'the Host field value is taken as the header parser trims it (Python bytes.strip: SP, HTAB and also VT, FF)', 'a status raised by parse() ends the history: the state machine is not fed again after an error (DESIGN.md 6.2)']
 RULE = ('request targets: all sequences of <= 4 (thorough: 6 sampled) tokens over {"/", ".", "..", "%2e", "%2E", "%2f", "%5c", "\\\\", "%25", "%c0%ae", "%252e", ";", "a", "b"} as origin-form, plus absolute-form, authority-form and asterisk-form targets, '
-	'x Host forms (reg-name, IPv4, bracketed IPv6, with/without port, upper case, absent; invalid: bad brackets / ports, short and non-decimal address forms, text after an address, URI delimiters, white space, control and 8-bit characters) x HTTP/1.0, 1.1; non-trivial = delivered; distinct by (target, host)')
+	'x Host forms (reg-name, IPv4, bracketed IPv6, with/without port, upper case, absent, sent twice; invalid: bad brackets / ports, short and non-decimal address forms, text after an address, URI delimiters, white space, control and 8-bit characters) x HTTP/1.0, 1.1; non-trivial = delivered; distinct by (target, host)')
 
 TOKENS = [b'/', b'.', b'..', b'%2e', b'%2E', b'%2f', b'%5c', b'\\', b'%25', b'%c0%ae', b'%252e', b';', b'a', b'b']
 HOSTS = [b'example.com', b'EXAMPLE.com:8080', b'127.0.0.1', b'127.0.0.1:81', b'[::1]', b'[2001:db8::1]:8443', b'h:0', b'h:65536', b'h:99999999999', b'', b'a b', b'h:', b'[::1', b'1.2.3', b'under_score', b'h,i', None, b'x:y', b'-', b'h.:80', b'example.com]', b'[[::1]]', b'[example.com:81', b']example.com[', b'[::1]]:80', b'[h', b'h]:80', b'[1.2.3.4]',
@@ -81,6 +81,12 @@ def cases(rng, tier):
 		elif form == 3:
 			target = b'/' + b'/'.join(rng.choice([b'a', b'b', b'%7Eu', b'x%20y', b'caf%C3%A9', b'%E2%82%AC']) for _ in range(rng.randrange(0, 4)))
 		method = b'CONNECT' if form in (2, 7) and rng.random() < 0.6 else rng.choice([b'GET', b'POST', b'OPTIONS'])
+		if rng.random() < 0.08:
+			# the Host field sent twice (RFC 7230 5.4: such a request is to be refused): equal, different, one of them empty
+			h1 = rng.choice([b'h', b'example.com', b'evil.example:81', b'', b'[::1]'])
+			h2 = rng.choice([h1, b'', b'h', b'evil.example:81', b' '])
+			yield ('t', target, h1, rng.choice([b'1.1', b'1.1', b'1.0']), method, h2)
+			continue
 		yield ('t', target, rng.choice(HOSTS), rng.choice([b'1.1', b'1.1', b'1.0']), method)
 
 
@@ -94,6 +100,9 @@ def stream(case):
 	lines = [method + b' ' + target + b' HTTP/' + version]
 	if host is not None:
 		lines.append(b'Host: ' + host)
+	if len(case) > 5:
+		lines.append(b'X-Between: 1')
+		lines.append(b'host: ' + case[5])
 	if method == b'POST':
 		lines.append(b'Content-Length: 0')
 	return b'\r\n'.join(lines) + b'\r\n\r\n'
@@ -169,6 +178,8 @@ def oracle(case):
 			bad.append('scheme %r' % u.scheme)
 		if u.username or u.password or u.fragment:
 			bad.append('user information or fragment present')
+		if len(case) > 5:
+			bad.append('delivered although the Host field was sent twice (%r and %r)' % (case[2], case[5]))
 		host = case[2]
 		if host is not None:
 			host = host.strip()      # the field value as the header parser trims it (bytes.strip)
